@@ -57,6 +57,12 @@ def setup_worker(ctx):
     logging.getLogger().setLevel(logging.CRITICAL)
 
 
+def nosort(case):
+    """Every other same-loader case runs with sort=False (derived from the walk seed
+    so that the other draws stay what they were)."""
+    return bool(case.get('same_loader')) and case['wseed'] % 2 == 0
+
+
 class OneLoader:
     """The library path: one ManifestRecursiveLoader (and so one profile object) kept
     across create, edits and updates, set up the way the CLI sets it up."""
@@ -73,6 +79,9 @@ class OneLoader:
             kw['compress_watermark'] = case['watermark']
         if case['format']:
             kw['compress_format'] = case['format']
+        if nosort(case):
+            # a user option overrides the profile's sorting, nothing else
+            kw['sort'] = False
         self.m = ManifestRecursiveLoader(os.path.join(root, 'Manifest'), **kw)
 
     def run(self, wseed):
@@ -192,7 +201,7 @@ def check_tree(ctx, root, case, phase, new_manifest_dirs):
                 ctx.violation('hash-set-wrong', 'entry for %r has %r, expected %r'
                               % (full, sorted(e['sums']), sorted(hashes)), case, detail)
                 return False
-        if prof != 'default' or case.get('sort'):
+        if (prof != 'default' or case.get('sort')) and not nosort(case):
             keys = [(e['tag'], e.get('path', e.get('ts', ''))) for e in ents]
             if keys != sorted(keys):
                 ctx.violation('not-sorted', 'entries of %r are not sorted' % mp, case,
@@ -343,6 +352,8 @@ def judge(ctx, root, case):
                     os.unlink(os.path.join(dp, f))
     if case.get('same_loader'):
         ctx.count('same_loader_cases')
+        if nosort(case):
+            ctx.count('unsorted_cases')
         try:
             one = OneLoader(root, case)
         except Exception as exc:
